@@ -261,9 +261,12 @@ func runGS(t []string) string {
 		}
 	}
 	b.WriteString(" | MAP")
+	singles := make([]fr.Element, len(regs))
 	for i := range regs {
 		var s fr.Element
+		s.SetUint64(0xdeadbeefcafe) // the result variable already holds a value from earlier use
 		regs[i].MapToScalarField(&s)
+		singles[i] = s
 		b.WriteString(" " + frHex(&s))
 	}
 	b.WriteString(" | BMAP")
@@ -274,11 +277,47 @@ func runGS(t []string) string {
 		outs[i] = new(fr.Element)
 	}
 	snapshot := append([]banderwagon.Element(nil), regs...)
-	if err := banderwagon.BatchMapToScalarField(outs, ptrs); err != nil {
+	batchErr := banderwagon.BatchMapToScalarField(outs, ptrs)
+	if batchErr != nil {
 		b.WriteString(" ERR")
 	} else {
 		for i := range outs {
 			b.WriteString(" " + frHex(outs[i]))
+		}
+	}
+	// a long batch with repeated, non-adjacent pointers and pre-filled result slots: position by
+	// position it must equal the single-element map of the pointed element
+	if len(regs) > 0 && batchErr == nil {
+		m := 5*len(regs) + 3
+		if m < 160 {
+			m = 160
+		}
+		ptrs2 := make([]*banderwagon.Element, m)
+		outs2 := make([]*fr.Element, m)
+		idx := make([]int, m)
+		for j := range idx {
+			idx[j] = (j*j + j/3) % len(regs)
+			ptrs2[j] = &regs[idx[j]]
+			outs2[j] = new(fr.Element)
+			outs2[j].SetUint64(uint64(77 + j))
+		}
+		if err := banderwagon.BatchMapToScalarField(outs2, ptrs2); err != nil {
+			b.WriteString(" ALIASFAIL-ERR")
+		} else {
+			for j := range outs2 {
+				if *outs2[j] != singles[idx[j]] {
+					b.WriteString(" ALIASFAIL")
+					break
+				}
+			}
+		}
+		// the same aliasing pattern through the batch serialiser
+		eb2 := banderwagon.ElementsToBytes(ptrs2[:len(regs)+7]...)
+		for j := range eb2 {
+			if eb2[j] != regs[idx[j]].Bytes() {
+				b.WriteString(" ALIASFAIL-EB")
+				break
+			}
 		}
 	}
 	b.WriteString(" | EB")
